@@ -46,6 +46,12 @@ theorem C15_blocking_calls_hold_no_loop_lock :
 theorem C15_receive_loops_never_send :
     loopSendViolations accessTable = [] ∧ loopRootIds.length = loopRoots.length := by decide +kernel
 
+/-- **Nobody waits for other goroutines with a mutex held**: `Stop` /
+    `GracefulStop` wait for the `Serve` calls (`wg.Wait`) only after releasing
+    `ReverseTunnelServer.mu`, which every tunnel of the server needs to decide
+    whether to refuse a new RPC (`isClosing`). -/
+theorem C15_waits_hold_no_lock : lockedWaitViolations accessTable = [] := by decide +kernel
+
 /-! ### lock order -/
 
 /-- **The lock-order graph of the current sources has no cycle** (so no
